@@ -126,7 +126,12 @@ impl<K: Ord, V> BTreeMap<K, V> {
     }
     pub fn entry(&mut self, k: K) -> Entry<'_, K, V> {
         match self.locate(&k) {
-            Ok(i) => Entry::Occupied(OccupiedEntry { map: self, idx: i }),
+            Ok(i) => {
+                // the addressed element is taken out into the entry object (one selection over the slots) so that
+                // `get` / `get_mut` dereference a concrete location; it is written back when the entry is dropped
+                let elem = self.items.take_at(i);
+                Entry::Occupied(OccupiedEntry { map: self, idx: i, elem })
+            }
             Err(i) => Entry::Vacant(VacantEntry { map: self, key: k, idx: i }),
         }
     }
@@ -253,33 +258,50 @@ pub enum Entry<'a, K, V> {
 pub struct OccupiedEntry<'a, K, V> {
     map: &'a mut BTreeMap<K, V>,
     idx: usize,
+    elem: Option<(K, V)>,
 }
 pub struct VacantEntry<'a, K, V> {
     map: &'a mut BTreeMap<K, V>,
     key: K,
     idx: usize,
 }
+impl<'a, K, V> Drop for OccupiedEntry<'a, K, V> {
+    fn drop(&mut self) {
+        if let Some(e) = self.elem.take() {
+            self.map.items.put_at(self.idx, e);
+        }
+    }
+}
 impl<'a, K: Ord, V> OccupiedEntry<'a, K, V> {
     pub fn key(&self) -> &K {
-        &self.map.items[self.idx].0
+        &self.elem.as_ref().unwrap().0
     }
     pub fn get(&self) -> &V {
-        &self.map.items[self.idx].1
+        &self.elem.as_ref().unwrap().1
     }
     pub fn get_mut(&mut self) -> &mut V {
-        &mut self.map.items[self.idx].1
+        &mut self.elem.as_mut().unwrap().1
     }
-    pub fn into_mut(self) -> &'a mut V {
-        &mut self.map.items[self.idx].1
+    pub fn into_mut(mut self) -> &'a mut V {
+        let i = self.idx;
+        if let Some(e) = self.elem.take() {
+            self.map.items.put_at(i, e);
+        }
+        let m: *mut BTreeMap<K, V> = self.map;
+        unsafe { &mut (&mut (*m).items)[i].1 }
     }
     pub fn insert(&mut self, v: V) -> V {
-        std::mem::replace(&mut self.map.items[self.idx].1, v)
+        std::mem::replace(&mut self.elem.as_mut().unwrap().1, v)
     }
     pub fn remove(self) -> V {
-        self.map.items.remove(self.idx).1
+        self.remove_entry().1
     }
-    pub fn remove_entry(self) -> (K, V) {
-        self.map.items.remove(self.idx)
+    pub fn remove_entry(mut self) -> (K, V) {
+        let e = self.elem.take().unwrap();
+        let i = self.idx;
+        // the slot is empty: close the gap
+        self.map.items.close_gap(i);
+        e
     }
 }
 impl<'a, K: Ord, V> VacantEntry<'a, K, V> {
